@@ -35,7 +35,7 @@ type C12Hist struct {
 func (h *C12Hist) Reloads() int {
 	n := 0
 	for _, e := range h.Events {
-		if e.Ev == "reload" {
+		if e.Ev == "reload" || e.Ev == "remove" {
 			n++
 		}
 	}
@@ -89,6 +89,12 @@ func C12HistSentinel(r *http.Request, ver string) { r.SetBasicAuth("gen-"+ver, "
 // C12HistReferee: does the htpasswd text of `ver` contain the pair of the class?  (independent of
 // the specification's Valid table: it looks at the concrete text)
 func C12HistReferee(ver, class string) (bool, error) {
+	if ver == "gone" { // a file that is not there contains no credentials
+		if _, ok := C12HistPairs[class]; !ok && class != "none" && class != "malformed" {
+			return false, fmt.Errorf("credential class %q has no concretisation", class)
+		}
+		return false, nil
+	}
 	p, ok := C12HistPairs[class]
 	if !ok {
 		if class == "none" || class == "malformed" {
@@ -131,7 +137,11 @@ func (h *C12Hist) Text() string {
 	k := 0
 	for _, e := range h.Events {
 		if e.Ev == "reload" {
-			xs = append(xs, "replace file by "+e.Ver+" (mtime "+e.Mt+")")
+			xs = append(xs, "file := "+e.Ver+" (mtime "+e.Mt+")")
+			continue
+		}
+		if e.Ev == "remove" {
+			xs = append(xs, "file disappears")
 			continue
 		}
 		p, ok := C12HistPairs[e.Cred]
